@@ -68,6 +68,11 @@ func (g *gen) assignTarget(want func(*Type) bool) Expr {
 
 func (g *gen) stmt(depth int) []Stmt {
 	g.stmtBudget--
+	if g.inLoop > 0 && g.outSlot != nil && g.chance(8, "accidiom") {
+		if s := g.accumulatorIdiom(); s != nil {
+			return s
+		}
+	}
 	r := g.intn(100, "st")
 	switch {
 	case r < 18:
@@ -139,6 +144,30 @@ func (g *gen) stmt(depth int) []Stmt {
 		}
 	}
 	return []Stmt{g.declStmt()}
+}
+
+// accumulatorIdiom emits, inside a loop body, `var acc = <constant>; acc op= <run-time value>;
+// <output slot> = acc;`: a loop-local variable whose declaration must re-initialise it on every
+// iteration (with or without initialiser) and whose value is observed in the same iteration.
+func (g *gen) accumulatorIdiom() []Stmt {
+	k := []Kind{I32, U32}[g.intn(2, "acck")]
+	t := Scalar(k)
+	cands := g.pathsTo([]Expr{g.outSlot()}, func(x *Type) bool { return x.Same(t) })
+	if len(cands) == 0 {
+		return nil
+	}
+	g.class("stmt:loop-local-accumulator")
+	v := &Var{Name: g.name("acc"), Kind: VVar, T: t, NoType: true}
+	if g.chance(70, "accinit") || g.f.off("var.no-init") {
+		v.Init = &Lit{T: t, Bits: uint32(g.intn(16, "accv"))}
+	} else {
+		v.NoType = false
+	}
+	g.declare(v)
+	op := []string{"+", "^", "|"}[g.intn(3, "accop")]
+	upd := &Assign{L: &VarRef{v}, Op: op, R: g.runtimeLeaf(k)}
+	obs := &Assign{L: g.buildPath(cands[g.intn(len(cands), "accobs")], 1, true), R: &VarRef{v}}
+	return []Stmt{&DeclStmt{V: v}, upd, obs}
 }
 
 func (g *gen) declStmt() Stmt {
